@@ -102,6 +102,7 @@ func (d *Decoder) decodeSlice(pkt *rtp.Packet) ([]byte, error) {
 
 	switch {
 	case b == 1 && e == 1:
+		d.resetFragments()
 		return pkt.Payload[4:], nil
 
 	case b == 1:
